@@ -645,7 +645,10 @@ def run(ck: Check):
         x = "{" + r.choice(URIS) + "}" + r.choice(LOCALS + BAD_LOCALS)
         add({"op": "deser", "types": ["QName"], "s": x, "ns_map": None}, kind="qname_deser", sp=None, m=None)
     fixed_v = [("http://www.w3.org/2001/XMLSchema-instance", "type", None), (None, "x", [[None, "urn:d"]]), ("urn:x-y", "a", None), ("urn:\u00fc", "x", None),
-               ("urn:a", "b", [["ns1", "urn:b"]]), ("urn:a", "b", [[None, "urn:a"]]), ("http://www.w3.org/2001/XMLSchema", "int", [])]
+               ("urn:a", "b", [["ns1", "urn:b"]]), ("urn:a", "b", [[None, "urn:a"]]), ("http://www.w3.org/2001/XMLSchema", "int", []),
+               # generate_prefix (repo e811fed): a taken standard prefix, taken ns<k> candidates
+               ("http://www.w3.org/2001/XMLSchema", "int", [["xs", "urn:o"]]), ("urn:c", "x", [["ns2", "urn:u"], ["ns3", "urn:v"], ["a", "urn:a"]]),
+               ("urn:c", "x", [["ns1", "urn:u"]]), ("http://www.w3.org/2001/XMLSchema-instance", "nil", [["xsi", "urn:o"], ["ns1", "urn:p"]])]
     for n in range(180 * N + len(fixed_v)):
         if n < len(fixed_v):
             uri, local, m = fixed_v[n]
